@@ -1099,6 +1099,14 @@ func inProc(e *c07Env, client int, op, key, src string) hEvent {
 		ev.Arg = id
 		ev.Call = e.now()
 		resp = e.s.Put(b, key, body, nil)
+	case "badput":
+		// an upload that is refused (its digest does not match): no effect, also none on an
+		// upload of the same key that is between two of its steps
+		_, body := e.reg.mint(key, false)
+		resp = e.s.Put(b, key, body, drv.H("Content-MD5", drv.MD5B64([]byte("not this body"))))
+		if resp.Status == 200 {
+			ev.Err = "an upload with a wrong Content-MD5 was accepted"
+		}
 	case "get":
 		resp = e.s.Get(b, key)
 		if resp.Status == 404 {
@@ -1343,7 +1351,7 @@ func c07Watchdog(r *rep.Reporter, stop <-chan struct{}) {
 
 func runC07(c *Ctx) {
 	r := c.R
-	r.SetRule("(1) short concurrent histories over loopback TCP: 2-16 clients x 1-6 operations (put/get/head/delete/copy incl. self-copy/list) on 1-3 keys per history, every written body unique, call/return stamped by one monotonic clock, a final read of every key at quiescence; every read must be exactly one uploaded body with matching ETag/length, and each key's sub-history must be linearizable against a register model (porcupine); (2) concurrent versioned uploads/deletes: ids distinct, GET ?versionId returns exactly that upload, nothing lost, and the version an unqualified read serves afterwards behaves as the newest one (one more upload followed by the deletion of exactly that version restores the same answer, repeatedly); permanent deletes of specific versions (each by one client) racing reads of the keys, reads by version id and listings: no dropped connection or 5xx, deleted versions gone, all others intact; bursts of eight simultaneous versioned writes to one key followed by the push/pop check; a versioned PUT parked at each of its hook points with another PUT or DELETE of the key completing inside the window, judged the same way; (3) concurrent part uploads, completes and aborts of one upload: held parts are acknowledged uploads, at most one complete wins, the object is exactly the listed parts; random concurrent histories of part uploads / completes (current, subset and stale lists) / aborts / ListParts / GET on one upload, a slow part upload whose body is still arriving while a complete or abort is answered, and part/complete parked at their hook points with the other operations inside the window, each history checked with porcupine against a sequential model of the upload (live?, body held per part number, bodies of the completed object); (4) a slow reader overlapping an acknowledged overwrite and a slow uploader with reads in between; (5) every ordered pair (A parked at a hook point, B run inside A's window) of operation kinds on one key; (6) bucket life cycle: create/delete/head bucket racing put/get/delete/list on two keys of that bucket, random histories over TCP and object operations parked at hook points with bucket operations inside the window, each whole history checked against a sequential bucket model (existence + both values) with porcupine; with the auto-create-bucket option, eight clients uploading into a new bucket at the same moment must all be acknowledged; (7) eight clients sending well-formed requests of every routed kind (object, listing, versioning, multi-delete, multipart, form, by-version) at one bucket at once, judged by the race detector, the lock-wait watchdog and 'no dropped connection, no 5xx but NotImplemented'; (8) the Go race detector over all of it; memory structures audited at quiescence; on all seven backend configurations; distinct = distinct observed interleavings (sequence of call/return events per history)")
+	r.SetRule("(1) short concurrent histories over loopback TCP: 2-16 clients x 1-6 operations (put/get/head/delete/copy incl. self-copy/list) on 1-3 keys per history, every written body unique, call/return stamped by one monotonic clock, a final read of every key at quiescence; every read must be exactly one uploaded body with matching ETag/length, and each key's sub-history must be linearizable against a register model (porcupine); (2) concurrent versioned uploads/deletes: ids distinct, GET ?versionId returns exactly that upload, nothing lost, and the version an unqualified read serves afterwards behaves as the newest one (one more upload followed by the deletion of exactly that version restores the same answer, repeatedly); permanent deletes of specific versions (each by one client) racing reads of the keys, reads by version id and listings: no dropped connection or 5xx, deleted versions gone, all others intact; bursts of eight simultaneous versioned writes to one key followed by the push/pop check; a versioned PUT parked at each of its hook points with another PUT or DELETE of the key completing inside the window, judged the same way; (3) concurrent part uploads, completes and aborts of one upload: held parts are acknowledged uploads, at most one complete wins, the object is exactly the listed parts; random concurrent histories of part uploads / completes (current, subset and stale lists) / aborts / ListParts / GET on one upload, a slow part upload whose body is still arriving while a complete or abort is answered, and part/complete parked at their hook points with the other operations inside the window, each history checked with porcupine against a sequential model of the upload (live?, body held per part number, bodies of the completed object); (4) a slow reader overlapping an acknowledged overwrite and a slow uploader with reads in between; (5) every ordered pair (A parked at a hook point, B run inside A's window) of operation kinds on one key; (6) bucket life cycle: create/delete/head bucket racing put/get/delete/list on two keys of that bucket, random histories over TCP and object operations parked at hook points with bucket operations inside the window, each whole history checked against a sequential bucket model (existence + both values) with porcupine; with the auto-create-bucket option, eight clients uploading into a new bucket at the same moment must all be acknowledged; (7) eight clients sending well-formed requests of every routed kind (object, listing, versioning, multi-delete, multipart, form, by-version) at one bucket at once, judged by the race detector, the lock-wait watchdog and 'no dropped connection, no 5xx but NotImplemented'; on the file backends a slow upload of a key racing an upload of a key below / above it (at most one acknowledged, the acknowledged one readable and listed); (8) the Go race detector over all of it; memory structures audited at quiescence; on all seven backend configurations; distinct = distinct observed interleavings (sequence of call/return events per history)")
 	nhist := r.Pick(140, 3000)
 	rounds := r.Pick(8, 150)
 	nlife := r.Pick(100, 2500)
@@ -1429,6 +1437,9 @@ func runC07(c *Ctx) {
 		case "sink":
 			for i := j.lo; i < j.hi; i++ {
 				runKitchenSink(e, i)
+				if drv.IsFs(e.kind) || drv.IsSingle(e.kind) {
+					runKeyConflictRace(e, i)
+				}
 			}
 		}
 		c07Quiescent(r, s, j.kind)
@@ -1442,7 +1453,7 @@ func runC07(c *Ctx) {
 			"delete": {"ensure-bucket.after", "fs.delete.between"},
 			"head":   {"ensure-bucket.after"},
 		}
-		bOps := []string{"put", "get", "head", "delete", "copy", "list"}
+		bOps := []string{"put", "get", "head", "delete", "copy", "list", "badput"}
 		caseNo := 0
 		for _, kind := range kinds {
 			s := mustServer(drv.Opts{Kind: kind})
@@ -1460,6 +1471,15 @@ func runC07(c *Ctx) {
 							caseNo++
 							runGatedPair(e, a, p, b, caseNo)
 						}
+					}
+				}
+			}
+			// a correct upload parked after staging, a refused upload of the same key ending meanwhile
+			if drv.IsFs(kind) || drv.IsSingle(kind) {
+				for rp := 0; rp < r.Pick(2, 10); rp++ {
+					for _, p := range []string{"fs.put.before-rename", "fs.put.after-mkdir", "fs.put.before-commit"} {
+						caseNo++
+						runGatedRejectedUpload(e, p, caseNo)
 					}
 				}
 			}
